@@ -16,13 +16,13 @@ import numpy as np
 PROPERTY = "C08"
 LEVEL = "exploration"
 RULE = (
-    "generated programs in five families: containment in polygonal workspaces/containers (rectangles, convex "
+    "generated programs in five families (stratified so that every shard sees every family): containment in polygonal workspaces/containers (rectangles, convex "
     "n-gons, L-shapes, holes, z != 0; `in`/`on`/`offset by`; random sizes/orientations; regionContainedIn), "
     "containment in mesh volumes (boxes, rotated boxes, L-shaped meshes; bigger base than container), relative "
     "heading with polygonal vector fields (2-4 cells, headings up to +-pi, noise) combined with a distance "
     "bound in every matcher form (<,<=,>,>=,!=, chained, abs(x), abs(x-c), abs(c-x), abs(x+c), constant on either "
     "side) or a visibility bound, and visibility (requireVisible / visible / visible from, offsets, small and "
-    "large view distances, view angles). Each program is compiled unpruned and pruned; a program is "
+    "large view distances, view angles), plus termination probes (tight rotated cubic mesh containers). Each program is compiled unpruned and pruned; a program is "
     "non-trivial when a pruner conditioned at least one position and removed > 0.1% of the base region and "
     "the unpruned program produced accepted scenes; distinct = distinct program texts."
 )
@@ -42,6 +42,9 @@ MIN_COUNTERS = {
         "fired_pruneContainment": 20,
         "fired_pruneRelativeHeading": 8,
         "fired_pruneVisibility": 10,
+        "productive_pruneContainment": 12,
+        "productive_pruneRelativeHeading": 2,
+        "productive_pruneVisibility": 5,
         "property_objects_checked": 80,
     },
     "thorough": {
@@ -53,6 +56,9 @@ MIN_COUNTERS = {
         "fired_pruneContainment": 250,
         "fired_pruneRelativeHeading": 90,
         "fired_pruneVisibility": 120,
+        "productive_pruneContainment": 120,
+        "productive_pruneRelativeHeading": 40,
+        "productive_pruneVisibility": 50,
         "property_objects_checked": 900,
     },
 }
@@ -710,6 +716,8 @@ def run_program(src, meta, ctx, tier, seed):
             bump("pruned_fraction_pct_sum", int(round(100 * max(frac, 0))))
             if frac > 0.001:
                 nontrivial = True
+                for name in who:
+                    bump("productive_" + name)
             if frac < -1e-6:
                 ctx.violation(None, f"object {idx}: pruned region is larger than the base region (ratio {1 - frac:.4f}) after {who}", wit)
         else:
